@@ -106,6 +106,7 @@ impl<'de, 'a> DeserializeSeed<'de> for RKey<'a> {
     fn deserialize<D: Deserializer<'de>>(self, d: D) -> Result<Val, D::Error> {
         match self.kt {
             KeyTy::Str => String::deserialize(d).map(Val::Str),
+            KeyTy::SpannedStr => R { ty: &Ty::Spanned(Box::new(Ty::Str)), cfg: self.cfg }.deserialize(d),
             KeyTy::UnitVariant(name, vars) => {
                 let vars: Vec<(String, VarTy)> = vars.iter().map(|v| (v.clone(), VarTy::Unit)).collect();
                 let names: Vec<String> = vars.iter().map(|(f, _)| f.clone()).collect();
